@@ -99,6 +99,14 @@ func main() {
 		}
 		r.Cleanup()
 	}
+	run.Races(func(rep string) string {
+		for _, frag := range []string{"/repo/image.go", "/repo/blob.go"} {
+			if fn := ev.RaceFrame(rep, frag); fn != "" {
+				return "race/image-copy/" + fn
+			}
+		}
+		return ""
+	})
 	if int(run.Get("copies_succeeded")) < n*8/10 {
 		run.Inconclusive("too many generated copies failed")
 	}
